@@ -277,7 +277,7 @@ mutual
 end
 
 def isPrimitiveTypeList (bs : List Schema) : Bool :=
-  bs.all fun b => match b.node.types with | [] => true | t :: _ => isPrimitiveTypeName t
+  bs.all fun b => b.node.types.all isPrimitiveTypeName
 
 /-- `schemas.MergeTypes` (the flags are unexported and never merged) -/
 def mergeTypes (bs : List Schema) : Except GenErr Schema :=
@@ -427,8 +427,9 @@ def structFieldValidators (field : String) (sch : NodeF Schema) : Nat â†’ GoTy â
         -- an integer bound literal outside the field type's range does not compile (constant overflow)
         (match ty with
          | .int k =>
-           let fits (b : Option Rat) : Bool := match b with | some q => k.inRangeB (truncRat q) | none => true
-           if !(fits (normLo sch.minimum sch.xmin).1 && fits (normHi sch.maximum sch.xmax).1) then issue "int-literal-overflow" else pure ()
+           let fits (b : Option Rat Ã— Bool) (upper : Bool) : Bool :=
+             match b with | (some q, e) => k.inRangeB (c.boundOf q upper e).num | (none, _) => true
+           if !(fits (normLo sch.minimum sch.xmin) false && fits (normHi sch.maximum sch.xmax) true) then issue "int-literal-overflow" else pure ()
          | _ => pure ())
         if c.emitsSomething then pure [.numeric field nillable c] else pure []
     | .slice _ => pure (arrayLoop ty 0 (f + 1))
